@@ -42,6 +42,8 @@ EXPLANATION = (
     "year' = year + n with day-of-month / day-of-year / week clamped to the target year, "
     "for all three representations. Time of day is required normal (not 24:00).")
 ASSUMPTIONS = [
+    "the bounded grid in this check adds nothing on a tree where every obligation is discharged; it is a safety net for changed code that leaves the verifier's reach (reported `undecided` by the proof part), labelled bounded, never counted as proved",
+   
     "runmin is an uninterpreted function defined by its two recursive equations, "
     "instantiated where needed (definitional, always true)",
     "mixed durations: proved for unit-form durations per subset of present (non-zero) "
@@ -53,3 +55,10 @@ ASSUMPTIONS = [
 LEVEL_TEXT = ("Proof by loop invariant for unbounded month counts and years of either sign, "
               "all month ends / leap days / day 366 / week 53, 4 modes.")
 LEVEL_NOTE = "Floats as reals; PyVC/z3/cvc5 trusted; see assumptions for the mixed-duration clause."
+
+
+def bounded(tier, seed, repo):
+    """Safety net for a changed tree on which a function of the cone has fallen out of the
+    verifier's reach (the proof then says `undecided`); never counted as proved."""
+    from . import safety_bounded
+    return safety_bounded.check_c05(tier, seed, repo)
